@@ -53,10 +53,13 @@ _SEEDS_T = [0, 1, 2, 3, 5, 7, 12, 42, 255, 256, 65535, 65536, 2**31 - 1, 2**31, 
 BOUNDS = {
     "quick": {"burn_in": [0, 4], "thin": [1, 4], "n": [1, 4], "seeds": _SEEDS_Q, "n_chains": [1, 4],
               "chain_index": "every index below n_chains", "stream_prefix_outputs": 1000,
-              "vi_n": [1, 4], "real_model_schedules": [[0, 1, 1], [1, 2, 2]]},
+              "vi_n": [1, 4], "real_model_schedules": [[0, 1, 1], [1, 2, 2]],
+              "command_line": "6 schedules x 2 screens, each twice into one output; stream identity CLI == library for seeds 0 / default / 7 x chain index 1 and 0 x "
+                              "{plain environment, batch-scheduler variables (SLURM_ARRAY_TASK_ID, RANK, ... = 1)}",
+              "cross_process": "7 (seed, n_chains, index) triples in this process and in 2 child interpreters with other PYTHONHASHSEED values"},
     "thorough": {"burn_in": [0, 8], "thin": [1, 6], "n": [1, 6], "seeds": _SEEDS_T, "n_chains": [1, 6],
                  "chain_index": "every index below n_chains", "stream_prefix_outputs": 1000,
-                 "vi_n": [1, 6], "real_model_schedules": [[0, 1, 1], [1, 2, 2], [3, 3, 2]]},
+                 "vi_n": [1, 6], "real_model_schedules": [[0, 1, 1], [1, 2, 2], [3, 3, 2]], "command_line": "as quick", "cross_process": "as quick, 4 child interpreters"},
 }
 ASSUMPTIONS = [
     "the relative order of reset_model and set_rng is not stated: don't-care; a reset after the last recorded state is not judged either",
@@ -402,6 +405,11 @@ def run_vi(p, col):
 
 # ------------------------------------------------------------------ cross-call oracles
 # ------------------------------------------------------------------ the schedule through the command line
+# variables a batch scheduler / MPI launcher sets for an array task or a rank (none of them is an input of the sampler)
+SCHEDULER_ENV = ["SLURM_ARRAY_TASK_ID", "SLURM_PROCID", "SLURM_LOCALID", "PBS_ARRAYID", "PBS_ARRAY_INDEX", "LSB_JOBINDEX", "SGE_TASK_ID",
+                 "RANK", "LOCAL_RANK", "OMPI_COMM_WORLD_RANK", "PMI_RANK", "NF_TASK_INDEX"]
+
+
 def run_cli_schedule(col):
     """train_model --n-burnin b --thin t --n-samples n on an observed and on a wholly unobserved screen: the real model is
     stepped exactly b + n*t times and its state is taken after steps b+t, ..., b+n*t (class-level counting wrapper around
@@ -472,31 +480,101 @@ def run_cli_schedule(col):
         # (a seed of 0 is a seed) and the option left out (documented default 0).
         from batchie.data import ExperimentSpace, Screen as _Screen
         data = os.path.join(tmp, "obs.h5")
+        # ... for chain index 1 and chain index 0 (an index of 0 is an index), in a plain environment and inside a batch-scheduler
+        # job (array / rank variables set to 1): the stream depends on (seed, number of chains, chain index) only
         for seed_, argv_seed in ((0, ["--seed", 0]), (0, []), (7, ["--seed", 7])):
-            case = {"kind": "cli-schedule", "stream": True, "seed": seed_, "explicit": bool(argv_seed)}
-            outs = []
-            for rep in range(2):
-                out = os.path.join(tmp, f"stream_{rep}.h5")
-                col.evaluations += 1
-                col.transitions += 1
-                run_cli("train_model", ["--data", data, "--output", out, "--model", "SparseDrugCombo", "--model-param", "n_embedding_dimensions=2",
-                                        "--n-samples", 2, "--n-burnin", 1, "--thin", 1, "--n-chains", 2, "--chain-index", 1] + argv_seed)
-                outs.append([np.asarray(th.W).tobytes() for th in ThetaHolder.load_h5(out).thetas])
-            scr = _Screen.load_h5(data)
-            m = SCM.SparseDrugCombo(experiment_space=ExperimentSpace.from_screen(scr), n_embedding_dimensions=2)
-            m.add_observations(scr.subset_observed())
-            lib = S.sample(model=m, results=ThetaHolder(n_thetas=2), seed=seed_, n_chains=2, chain_index=1, n_burnin=1, thin=1, progress_bar=False)
-            lib = [np.asarray(th.W).tobytes() for th in lib.thetas]
-            col.outcome("cli-stream", seed_, bool(argv_seed), outs[0] == outs[1], outs[0] == lib)
-            col.nontriv("cli-stream", seed_, bool(argv_seed))
-            if outs[0] != outs[1]:
-                col.violation("C17|cli|rng|differs-for-identical-triple", f"train_model {'--seed ' + str(seed_) if argv_seed else 'without --seed'} (chain 1 of 2) run twice gives different chains", case)
-            elif outs[0] != lib:
-                col.violation("C17|cli|rng|differs-from-library", f"train_model {'--seed ' + str(seed_) if argv_seed else 'without --seed (default 0)'} (chain 1 of 2) gives another chain than sampling.sample(seed={seed_}, n_chains=2, chain_index=1) for the same request", case)
+            for chain in (1, 0):
+                for sched in (False, True):
+                    case = {"kind": "cli-schedule", "stream": True, "seed": seed_, "explicit": bool(argv_seed), "chain": chain, "scheduler_env": sched}
+                    outs = []
+                    saved_env = {k: os.environ.get(k) for k in SCHEDULER_ENV}
+                    try:
+                        if sched:
+                            os.environ.update({k: "1" for k in SCHEDULER_ENV})
+                        for rep in range(2 if not sched else 1):
+                            out = os.path.join(tmp, f"stream_{rep}.h5")
+                            col.evaluations += 1
+                            col.transitions += 1
+                            run_cli("train_model", ["--data", data, "--output", out, "--model", "SparseDrugCombo", "--model-param", "n_embedding_dimensions=2",
+                                                    "--n-samples", 2, "--n-burnin", 1, "--thin", 1, "--n-chains", 2, "--chain-index", chain] + argv_seed)
+                            outs.append([np.asarray(th.W).tobytes() for th in ThetaHolder.load_h5(out).thetas])
+                    finally:
+                        for k, v_ in saved_env.items():
+                            if v_ is None:
+                                os.environ.pop(k, None)
+                            else:
+                                os.environ[k] = v_
+                    scr = _Screen.load_h5(data)
+                    m = SCM.SparseDrugCombo(experiment_space=ExperimentSpace.from_screen(scr), n_embedding_dimensions=2)
+                    m.add_observations(scr.subset_observed())
+                    lib = S.sample(model=m, results=ThetaHolder(n_thetas=2), seed=seed_, n_chains=2, chain_index=chain, n_burnin=1, thin=1, progress_bar=False)
+                    lib = [np.asarray(th.W).tobytes() for th in lib.thetas]
+                    col.outcome("cli-stream", seed_, bool(argv_seed), chain, sched, outs[0] == outs[-1], outs[0] == lib)
+                    col.nontriv("cli-stream", seed_, bool(argv_seed), chain, sched)
+                    where = f"(chain {chain} of 2{', batch-scheduler variables set to 1' if sched else ''})"
+                    if outs[0] != outs[-1]:
+                        col.violation("C17|cli|rng|differs-for-identical-triple", f"train_model {'--seed ' + str(seed_) if argv_seed else 'without --seed'} {where} run twice gives different chains", case)
+                    elif outs[0] != lib:
+                        col.violation("C17|cli|rng|differs-from-library", f"train_model {'--seed ' + str(seed_) if argv_seed else 'without --seed (default 0)'} {where} gives another chain than sampling.sample(seed={seed_}, n_chains=2, chain_index={chain}) for the same request", case)
     finally:
         for n, f in saved.items():
             setattr(SCM.SparseDrugCombo, n, f)
         shutil.rmtree(tmp, ignore_errors=True)
+
+
+CROSS_TRIPLES = [(0, 1, 0), (0, 2, 0), (0, 2, 1), (7, 3, 2), (12, 4, 0), (12, 4, 3), (2**32 - 1, 2, 1)]
+
+
+def stream_table():
+    """{"seed|n_chains|index": digest of the generator state the model works with} for CROSS_TRIPLES (this interpreter)."""
+    import hashlib
+
+    out = {}
+    for seed, c, i in CROSS_TRIPLES:
+        m = CountingMCMC()
+        S.sample(model=m, results=ThetaHolder(n_thetas=1), seed=seed, n_chains=c, chain_index=i, n_burnin=0, thin=1, progress_bar=False)
+        states = [e[1] for e in m.log if e[0] == "rng_at_first_step"]
+        raw = first_outputs(states[0]) if states else None
+        out[f"{seed}|{c}|{i}"] = None if raw is None else hashlib.sha256(np.asarray(raw).tobytes()).hexdigest()[:20]
+    return out
+
+
+def child_main():
+    import json as _json
+
+    print("C17CHILD" + _json.dumps(stream_table(), sort_keys=True))
+
+
+def run_cross_process(col, hashseeds):
+    """'identical for identical triples' also between interpreter processes: two chain jobs of one training run are separate
+    processes (with their own string-hash salt), and a rerun of a job must reproduce its chain."""
+    import json as _json
+    import subprocess
+    import sys
+
+    here = stream_table()
+    tables = {"this process": here}
+    for hs in hashseeds:
+        e = dict(os.environ, PYTHONHASHSEED=str(hs), PYTHONDONTWRITEBYTECODE="1")
+        r = subprocess.run([sys.executable, "-c", "import sys; sys.path.insert(0, %r); from mc.props import c17; c17.child_main()" % env.VERIF],
+                           env=e, capture_output=True, text=True, timeout=600)
+        line = next((ln for ln in r.stdout.splitlines() if ln.startswith("C17CHILD")), None)
+        if line is None:
+            raise RuntimeError(f"child interpreter failed: {r.stderr[-400:]}")
+        tables[f"PYTHONHASHSEED={hs}"] = _json.loads(line[len("C17CHILD"):])
+        col.evaluations += len(CROSS_TRIPLES)
+        col.transitions += len(CROSS_TRIPLES)
+    for key, d0 in here.items():
+        col.states += 1
+        col.outcome("cross-process-stream", key, d0)
+        col.nontriv("cross-process-stream", key)
+        for name, tab in tables.items():
+            if tab.get(key) != d0:
+                seed, c, i = key.split("|")
+                col.violation("C17|rng|differs-across-processes",
+                              f"sample(seed={seed}, n_chains={c}, chain_index={i}) hands the model another stream in a second interpreter process ({name}) than in this one",
+                              {"kind": "cross-process", "hashseeds": hashseeds})
+                break
 
 
 def _judge_same(col, ref, ref_p, out, p):
@@ -534,6 +612,7 @@ def plan(tier, seed):
     items = [{"kind": "mcmc", "seed": s} for s in b["seeds"]]
     items.append({"kind": "vi", "seeds": b["seeds"]})
     items.append({"kind": "cli-schedule"})
+    items.append({"kind": "cross-process", "hashseeds": [1, 2] if tier == "quick" else [1, 2, 3, 4]})
     return items
 
 
@@ -541,6 +620,9 @@ def run_item(item, col, tier):
     B = BOUNDS[tier]
     if item["kind"] == "cli-schedule":
         run_cli_schedule(col)
+        return
+    if item["kind"] == "cross-process":
+        run_cross_process(col, item["hashseeds"])
         return
     if item["kind"] == "vi":
         for seed in item["seeds"]:
@@ -610,6 +692,9 @@ def replay(case, col):
         return
     if kind == "cli-schedule":
         run_cli_schedule(col)
+        return
+    if kind == "cross-process":
+        run_cross_process(col, case["hashseeds"])
         return
     if kind == "vi":
         run_vi({k_: case[k_] for k_ in ("seed", "n", "n_chains", "index", "b", "t")}, col)
